@@ -175,14 +175,18 @@ def knobs(rng):
 
 def plan(tier, seed):
     quick = tier == "quick"
-    return {"nshards": 16, "params": {"soft_s": 300 if quick else 1200, "nprograms": 50 if quick else 600, "script_len": 8 if quick else 16, "ninputs": 5 if quick else 12}, "hard_timeout_s": 700 if quick else 3400}
+    return {"nshards": 16, "params": {"soft_s": 600 if quick else 1800, "nprograms": 50 if quick else 600, "script_len": 8 if quick else 16, "ninputs": 5 if quick else 12}, "hard_timeout_s": 1200 if quick else 4000}
 
 
 def shard(ctx):
-    from ..templates import any_template
+    from ..templates import any_template, quasi_template
 
-    prof = StreamProfile(knobs_fn=knobs, script_len=ctx.params["script_len"], op_weights=weights(), templates=any_template)
-    prof.template_prob = 0.2
+    def templ(rng):
+        # mostly the quasi-affine family written for simplify / range analysis
+        return quasi_template(rng) if rng.random() < 0.8 else any_template(rng)
+
+    prof = StreamProfile(knobs_fn=knobs, script_len=ctx.params["script_len"], op_weights=weights(), templates=templ)
+    prof.template_prob = 0.55
     run_stream(ctx, prof, [SimplifyMonitor(ctx, ninputs=ctx.params["ninputs"])])
 
 
